@@ -1,2 +1,217 @@
-(* placeholder while the tie is being validated *)
-From ZI Require Import Model.Super.
+(* Property C19 — super() proxies see only the remainder of the MRO.
+   Only statements here; proofs are in Proofs/Super.v, the model in Model/Super.v, the relations
+   [Contributes] [Hears] in Spec/Super.v.
+   Reading aid:  E  a world (class graph with ``object`` = class 0, interface graph, instances);
+   [env_ok E] its boolean well-formedness (bases are created before their subclasses);
+   [mro_of E T] Python's MRO of class T (C3);  [final uc E ops] the state after ANY history [ops]
+   of declarations (classImplements / classImplementsOnly / classImplementsFirst on any class),
+   registrations, providedBy / implementedBy queries and adaptations ([uc] = C optimizations in
+   use);  [ASuper C j] the proxy super(C, ob) for the j-th instance ob, whose class is
+   [obj_cls E j];  [flat E d c] the flattened content of implementedBy(c) under declarations d. *)
+From Coq Require Import List Arith Bool.
+Import ListNotations.
+From ZI Require Import Spec.C3 Proofs.Ro Model.Ro Model.Adapter Model.Lookup Model.Super Spec.Super Proofs.Super.
+
+(* the modelled MRO is the textbook C3 linearisation of the class graph *)
+Theorem C19_mro_is_c3 : forall E T, env_ok E = true ->
+  mro_of E T = c3_lin (bases (e_cg E)) (S (length (e_cg E))) T.
+Proof. exact mro_is_c3. Qed.
+Print Assumptions C19_mro_is_c3.
+
+(* After any history: for every class C of type(ob)'s MRO that is followed by at least one class,
+   providedBy(super(C, ob)) succeeds, leaves the declarations alone, and the content of the
+   specification it returns is EXACTLY the union of the contents of implementedBy(c) for the
+   classes c after C. *)
+Theorem C19_super_spec_exact : forall uc E ops C j mro l1 l2,
+  env_ok E = true -> mro_of E (obj_cls E j) = Some mro -> mro = l1 ++ C :: l2 -> l2 <> [] ->
+  exists st' s, providedBy uc E (final uc E ops) (ASuper C j) = (st', Some (RSynth s)) /\
+    st_decl st' = st_decl (final uc E ops) /\
+    forall i, In i (flat_ref E st' (RSynth s)) <->
+              exists c, In c l2 /\ In i (flat E (st_decl (final uc E ops)) c).
+Proof. exact super_spec_exact_lemma. Qed.
+Print Assumptions C19_super_spec_exact.
+
+(* ... and those classes never include C itself or a class before C (the MRO has no repetition),
+   so a declaration of C or of an earlier class shows only if a later class implements it too *)
+Theorem C19_super_excludes_self_and_earlier : forall E T C mro l1 l2,
+  env_ok E = true -> mro_of E T = Some mro -> mro = l1 ++ C :: l2 ->
+  ~ In C l2 /\ ~ In C l1 /\ forall c, In c l1 -> ~ In c l2.
+Proof. exact excludes_lemma. Qed.
+Print Assumptions C19_super_excludes_self_and_earlier.
+
+(* when no class follows C (C is ``object``, or not in the MRO) the query raises *)
+Theorem C19_super_without_remainder_raises : forall uc E ops C j mro,
+  env_ok E = true -> mro_of E (obj_cls E j) = Some mro -> rest_after C mro = [] ->
+  snd (providedBy uc E (final uc E ops) (ASuper C j)) = None.
+Proof. exact super_fails_lemma. Qed.
+Print Assumptions C19_super_without_remainder_raises.
+
+(* what the instance provides directly never enters: two worlds that differ only in the
+   instances' direct declarations give the same answer for every proxy after every history *)
+Theorem C19_super_ignores_instance_declarations : forall uc E E' ops C j,
+  env_ok E = true -> e_cg E = e_cg E' -> e_ig E = e_ig E' -> obj_cls E j = obj_cls E' j ->
+  answer uc E (final uc E ops) (ASuper C j) = answer uc E' (final uc E' ops) (ASuper C j).
+Proof. exact ignores_direct_lemma. Qed.
+Print Assumptions C19_super_ignores_instance_declarations.
+
+(* the _super_cache is transparent: after any history (any earlier queries, any declaration
+   changes before and after them, including below a class declared with an *only* form whose cache
+   survives) the answer equals the one computed with every cache deleted *)
+Theorem C19_super_cache_transparent : forall uc E ops C j,
+  env_ok E = true ->
+  answer uc E (final uc E ops) (ASuper C j) = answer uc E (clear_caches (final uc E ops)) (ASuper C j) /\
+  answer_implementedBy uc E (final uc E ops) (ASuper C j) =
+    answer_implementedBy uc E (clear_caches (final uc E ops)) (ASuper C j).
+Proof. exact cache_transparent_lemma. Qed.
+Print Assumptions C19_super_cache_transparent.
+
+(* ... and equals the answer in a run where no query, registration or adaptation ever happened
+   (only the declarations), in either implementation *)
+Theorem C19_earlier_queries_irrelevant : forall uc uc' E ops C j,
+  env_ok E = true ->
+  answer uc E (final uc E ops) (ASuper C j) =
+  answer uc' E (final uc' E (filter is_declaration ops)) (ASuper C j).
+Proof. exact earlier_queries_irrelevant_lemma. Qed.
+Print Assumptions C19_earlier_queries_irrelevant.
+
+(* implementedBy and providedBy agree on a proxy: same specification object, same state,
+   whichever of the two implementations answers either call *)
+Theorem C19_implementedBy_eq_providedBy_on_super : forall E uc uc' st C j,
+  implementedBy uc E st (ASuper C j) = providedBy uc' E st (ASuper C j).
+Proof. exact implementedBy_eq_providedBy. Qed.
+Print Assumptions C19_implementedBy_eq_providedBy_on_super.
+
+(* LookupBase.adapter_hook / queryAdapter (Model/Lookup.v) on a proxy [o] of the object [ob]:
+   for every uncached lookup function, every factory behaviour and every cache content that
+   agrees with the uncached lookup, the factory found for the proxy's specification is called
+   with [ob] itself *)
+Theorem C19_super_adaptation :
+  forall (ul : list spec -> spec -> name -> option value) (fcall : value -> list nat -> option nat)
+         c p o n ob,
+  o_super_of o = Some ob ->
+  (forall req p' n' v, aget cache_key_eqb (c_cache c) (p', n', ckey_of req) = Some v -> v = ul req p' n') ->
+  snd (adapter_hook ul fcall c p o (NStr n)) =
+  match ul [o_provides o] p n with
+  | Some f => match fcall f [ob] with Some r => RVal r | None => RDefault end
+  | None => RDefault
+  end.
+Proof. exact adapter_hook_super_lemma. Qed.
+Print Assumptions C19_super_adaptation.
+
+(* queryMultiAdapter: looked up with what each object provides, called with the unwrapped objects;
+   unwrapping a proxy gives the underlying object *)
+Theorem C19_super_multi_adaptation :
+  forall (ul : list spec -> spec -> name -> option value) (fcall : value -> list nat -> option nat)
+         c os p n,
+  (forall req p' n' v, aget cache_key_eqb (c_cache c) (p', n', ckey_of req) = Some v -> v = ul req p' n') ->
+  snd (queryMultiAdapter ul fcall c os p (NStr n)) =
+  match ul (map o_provides os) p n with
+  | Some f => match fcall f (map unwrap os) with Some r => RVal r | None => RDefault end
+  | None => RDefault
+  end /\
+  forall o ob, o_super_of o = Some ob -> unwrap o = ob.
+Proof. intros. split; [apply queryMultiAdapter_lemma; assumption|exact unwrap_super]. Qed.
+Print Assumptions C19_super_multi_adaptation.
+
+(* the model's registry after any history: adapting super(C, ob) through queryAdapter,
+   adapter_hook or queryMultiAdapter runs a factory only if it is registered under this name for an
+   interface implemented by a class after C (and for a provided interface that is or extends the one
+   asked for) and passes instance j itself (result = factory * 1000 + j); it answers the default
+   only if no such registration exists *)
+Theorem C19_super_adapter_selected : forall uc E ops v C j p n mro l1 l2,
+  env_ok E = true -> mro_of E (obj_cls E j) = Some mro -> mro = l1 ++ C :: l2 -> l2 <> [] ->
+  let st := final uc E ops in
+  exists st' r, adapt uc E st v [ASuper C j] p n = (st', Some r) /\
+    (forall x, r = RVal x ->
+       exists reg q, In reg (st_regs st) /\ r_name reg = n /\ r_req reg = [q] /\
+                     (exists c, In c l2 /\ In q (flat E (st_decl st) c)) /\
+                     i_isOrExtends E (r_prov reg) p = true /\
+                     x = vid (r_val reg) * 1000 + j mod 10) /\
+    (r = RDefault ->
+       forall reg q, In reg (st_regs st) -> r_name reg = n -> r_req reg = [q] ->
+                     i_isOrExtends E (r_prov reg) p = true ->
+                     ~ exists c, In c l2 /\ In q (flat E (st_decl st) c)) /\
+    r <> RValueError.
+Proof. exact adapter_selected_lemma. Qed.
+Print Assumptions C19_super_adapter_selected.
+
+(* meaning of "the content of implementedBy(c)": Interface, plus whatever a contributing class
+   (c, or a class reached through __bases__ while the classes on the way still inherit) declares,
+   plus everything those interfaces extend *)
+Theorem C19_flat_semantics : forall E d c i, env_ok E = true ->
+  (In i (flat E d c) <->
+   i = iroot \/ exists c' q, Contributes E d c c' /\ In q (declared d c') /\ Reach (bases (e_ig E)) q i).
+Proof. intros E d c i OK. apply flat_semantics_lemma. exact OK. Qed.
+Print Assumptions C19_flat_semantics.
+
+(* Implements.changed: a change of implementedBy(c) deletes the _super_cache of exactly the
+   classes that hear about it (an *only* class below c does not, and keeps its cache) *)
+Theorem C19_notified_exactly_dependents : forall E st c T, env_ok E = true ->
+  (In T (notified E (st_decl st) (cfuel E) c) <-> Hears E (st_decl st) T c) /\
+  (Hears E (st_decl st) T c -> nget (st_cache (notify E st c)) T = None) /\
+  (~ Hears E (st_decl st) T c -> nget (st_cache (notify E st c)) T = nget (st_cache st) T).
+Proof.
+  intros E st c T OK. split; [apply notified_lemma; exact OK|apply notify_cache_lemma; exact OK].
+Qed.
+Print Assumptions C19_notified_exactly_dependents.
+
+(* ---- non-vacuity: a diamond with an undeclared mixin below an *only* class.
+   interfaces I1, I2, I3(I2), I4; classes A=1 (I1), M=2 (mixin, nothing declared), B(A)=3 (I2),
+   Cc(A, M)=4 (nothing declared), D(B, Cc)=5 declared with implementer_only(I4); instance 0 of D
+   directly provides I3, instance 1 of D nothing. *)
+Definition ex_E : env :=
+  mkEnv [(0, []); (1, [0]); (2, [0]); (3, [1]); (4, [1; 2]); (5, [3; 4])]
+        [(1, []); (2, []); (3, [2]); (4, [])] [(5, [3]); (5, [])].
+
+Definition ex_ops : list op :=
+  [OImplements 1 [1]; OImplements 3 [2]; OOnly 5 [4];
+   OProvidedBy (AObj 0);
+   OProvidedBy (ASuper 3 0); OProvidedBy (ASuper 5 0); OImplementedBy (ASuper 3 1);
+   ORegister (mkR [3] 1 1 (mkV 7 7)); ORegister (mkR [2] 1 2 (mkV 8 8));
+   OAdapt ViaQueryAdapter [ASuper 3 0] 1 1; OAdapt ViaAdapterHook [ASuper 5 0] 1 2;
+   OImplements 2 [3];                       (* the mixin declares I3 while D's cache is warm *)
+   OProvidedBy (ASuper 3 0); OProvidedBy (ASuper 5 0);
+   OAdapt ViaQueryAdapter [ASuper 3 0] 1 1; OAdapt ViaMulti [ASuper 3 0] 1 1;
+   OImplements 5 [1];                       (* a declaration on D itself drops D's cache *)
+   OProvidedBy (ASuper 3 0); OProvidedBy (ASuper 0 0)].
+
+(* the world is well formed, D's MRO is D B Cc A M object; the instance provides I1..I4 but
+   super(B, d) sees only I1 (from A; not B's I2, not D's I4, not the instance's I3); after the mixin's
+   declaration the SAME cached specification (number 0: D is an *only* class and did not hear)
+   answers I1 I2 I3; the adapter for I3 is then found and receives instance 0; a declaration on D
+   makes a new specification (number 2); super(object, d) raises *)
+Example C19_witness :
+  env_ok ex_E = true /\ mro_of ex_E 5 = Some [5; 3; 4; 1; 2; 0] /\
+  run true ex_E init ex_ops =
+    [[]; []; []; [1; 2; 0; 0; 2; 3; 4]; [1; 0; 0; 0; 1]; [1; 0; 1; 0; 1; 2]; [1; 0; 0; 0; 1]; []; [];
+     [2]; [3; 8000]; []; [1; 0; 0; 0; 1; 2; 3]; [1; 0; 1; 0; 1; 2; 3]; [3; 7000]; [3; 7000]; [];
+     [1; 0; 2; 0; 1; 2; 3]; [0]] /\
+  run false ex_E init ex_ops = run true ex_E init ex_ops /\
+  st_cache (final true ex_E ex_ops) = [(5, [(3, 2)])].
+Proof. vm_compute. repeat split; reflexivity. Qed.
+
+(* the hypotheses of C19_super_spec_exact / C19_super_adapter_selected are met by that world *)
+Example C19_witness_split :
+  mro_of ex_E (obj_cls ex_E 0) = Some ([5] ++ 3 :: [4; 1; 2; 0]) /\ [4; 1; 2; 0] <> [].
+Proof. split; [vm_compute; reflexivity|discriminate]. Qed.
+
+(* the mixin's declaration is heard by Cc but not by the *only* class D *)
+Example C19_witness_hears :
+  Hears ex_E (st_decl (final true ex_E ex_ops)) 4 2 /\
+  notified ex_E (st_decl (final true ex_E ex_ops)) (cfuel ex_E) 2 = [2; 4] /\
+  Contributes ex_E (st_decl (final true ex_E ex_ops)) 4 2.
+Proof.
+  split; [|split].
+  - eapply Hears_sub with (y := 4); [vm_compute; auto 10|vm_compute; reflexivity|vm_compute; auto|constructor].
+  - vm_compute. reflexivity.
+  - eapply Contributes_base with (b := 2); [vm_compute; reflexivity|vm_compute; auto|constructor].
+Qed.
+
+(* a coherent non-empty lookup cache and a proxy object, for C19_super_adaptation *)
+Example C19_witness_lookup :
+  let ul := fun (req : list spec) (p : spec) (n : name) => match req with [6] => Some (mkV 7 7) | _ => None end in
+  let o := mkObj 6 9 (Some 0) in
+  let c := fst (adapter_hook ul call empty_caches 1 o (NStr 1)) in
+  c_cache c <> [] /\ snd (adapter_hook ul call c 1 o (NStr 1)) = RVal 7000 /\
+  snd (queryMultiAdapter ul call c [o] 1 (NStr 1)) = RVal 7000.
+Proof. vm_compute. repeat split; try reflexivity. discriminate. Qed.
